@@ -38,7 +38,7 @@ class ConvergeScenario(WorldScenario):
             cands = []
             if w.cluster is not None:
                 cl = w.cluster
-                for j in sorted(cl.jobs.values(), key=lambda j: int(j.id)):
+                for j in sorted((j for j in cl.jobs.values() if not j.foreign), key=lambda j: int(j.id)):
                     if j.foreign or j.phase == "done":
                         continue
                     if j.phase == "pending":
